@@ -34,21 +34,34 @@ RULE = ('(a) isolated pipeline: the real LuaFormatterWriter._get_code_for_spaces
 PARTIAL = ('proved at program level (parser trees inside the writer domain of C09_aligned, tidy token codes): C10_shape (no trailing '
            'white space, no double blank line in the whole luafmt output), C10_indent_counter_partial (a code token that begins a '
            'line is preceded by exactly indentwidth x n spaces, n >= 0 the writer nesting counter at its white-space run), C10_first_line '
-           '(what begins the first line of the output sits at column 0), '
-           'C10_indent_link (n = the reference depth token_depth of Spec/TokenDepth.v at the token the run ends at) and C10_indent '
+           '(what begins the first line of the output sits at column 0), C10_no_blank_lines_at_end (the output is empty, one line feed, or '
+           'ends in a byte that is neither blank nor line feed followed by at most one line feed), '
+           'C10_indent_link (n = the reference depth token_depth of Spec/TokenDepth.v at the token the run ends at, for every run that '
+           'holds a newline token - the only runs after which a token can begin a line: C10_line_start_needs_newline) and C10_indent '
            '(a token that begins a line is preceded by exactly indentwidth x token_depth spaces) - the last two for trees without a '
-           'one-line if that has an else part and without a trailing table field separator (the counter is known to differ there; '
-           'C10_indent_trailing_sep_refuted); token_depth is a function of the INPUT token list (the rules of Spec/FmtShape.v restated '
+           'trailing table field separator (the counter is known to differ there; C10_indent_trailing_sep_refuted) and token lists whose '
+           'space / comment tokens do not end a line (trivia_tidy, true of the lexer, observed on every run); a one-line if with an else '
+           'part is no exclusion any more (the counter differs from the reference depth only inside its line); token_depth is a function '
+           'of the INPUT token list (the rules of Spec/FmtShape.v restated '
            'on lexer tokens, agreement lemmas tok_depth_at_agrees / tok_depth_after_agrees) - that re-reading the OUTPUT text gives the '
-           'same tokens and hence the same depth is observed by the monitor, not proved; NOT proved: '
-           're-indentation invariance and idempotence of whole programs (need the lexer on re-indented / written text); proved and '
+           'same tokens and hence the same depth is observed by the monitor, not proved; C10_output_form (inside the domain, without a '
+           'trailing table field separator, token lists in which a run without a newline token holds no line end - gaps_tidy: luafmt '
+           'writes exactly ref_fmt (gap_fmt w) ts, the token-level reference formatter of Spec/ReindentSpec.v: every significant token '
+           'with its own code, the run in front of it rewritten by the pipeline with at_start / at_end and the reference depth of the '
+           'token) and C10_reindent_invariant (two token lists inside that domain with the same significant tokens whose runs at '
+           'corresponding places agree after canon_ws and the removal of blanks at line edges - reindent_equiv - are formatted to the '
+           'same text): re-indentation invariance at TOKEN level; C10_idempotent_tokens (a token list inside that domain that is spelled '
+           'as the reference formatting of some token list - formatted_as: same significant tokens, every run spelled as the pipeline '
+           'rewrites the run at the same place - is written back byte for byte): idempotence at TOKEN level; NOT proved: that lexing '
+           'two texts related by the byte-level same_modulo_line_edges gives reindent_equiv token lists, and that lexing luafmt output '
+           'gives a formatted_as token list (one Example each; needs the lexer on re-indented / written text); proved and '
            'unbounded: every run-level statement about the white-space pipeline, the whole-output clauses relative to an abstract '
            'chunk list (C10_*_partial)')
 ASSUMPTIONS = ['indentwidth is an integer (0-8 in the monitor domain); programs are those on which luafmt succeeds (C09 covers success)',
                'interior lines of multi-line block comments and long strings are token content, not layout: re-indentations leave them alone',
                'blank lines before the first line of the file are not "separating lines" (the output may start with up to two)']
 CLAIM = dict(
-    text=("Twenty theorems in Properties/C10.v (Coq, closed under the global context) about fmt_run, the model of the 15-step re.sub "
+    text=("The theorems of Properties/C10.v (Coq, closed under the global context) about fmt_run, the model of the 15-step re.sub "
           "pipeline of LuaFormatterWriter._get_code_for_spaces, for white-space/comment runs of EVERY length, every indent width and "
           "depth, at the start / middle / end of the file: C10_run_canonical_form (exact line-by-line form of the output), "
           "C10_run_depends_on_norm (runs equal modulo blanks at line edges are formatted identically: re-indentation invariance "
@@ -63,13 +76,24 @@ CLAIM = dict(
           "blank and never three line feeds in a row) and C10_indent_counter_partial (every code token that begins a line is preceded "
           "by exactly indentwidth x n spaces, n >= 0 the nesting counter at its white-space run), obtained by discharging the "
           "hypotheses separated / codes_ok / no_end of the chunk theorems from the alignment proof (Proofs/AstWriterLines.v), likewise "
-          "C10_first_line (a prefix of the output that is blanks only, without a line feed, is empty); and, for trees "
-          "without a one-line if with an else part and without a trailing table field separator, C10_indent_link (every non-empty "
-          "white-space run handed to _get_code_for_spaces ends at a significant token i and is passed _indent = token_depth ts i, the "
+          "C10_first_line (a prefix of the output that is blanks only, without a line feed, is empty) and C10_no_blank_lines_at_end (the "
+          "whole output is empty, a single line feed, or ends in a non-blank byte followed by at most one line feed); and, for trees "
+          "without a trailing table field separator, C10_indent_link (every non-empty "
+          "white-space run handed to _get_code_for_spaces ends at a significant token i and, if it holds a newline token, is passed "
+          "_indent = token_depth ts i, the "
           "number of blocks and brackets open at token i of the input by the reference rules of Spec/FmtShape.v restated on lexer tokens "
-          "in Spec/TokenDepth.v) and C10_indent (a code token i that begins a line of the output is preceded by exactly indentwidth x "
-          "token_depth ts i spaces); proved by re-running the walk induction with the counter and the token-stream depth state threaded "
-          "(Proofs/TokenDepthProofs.v, WriterCursorD.v, AstWriterDepth.v). Regex sources, guards, replacement expressions, order, and the whole function text "
+          "in Spec/TokenDepth.v; one-line ifs with an else part included: what follows the condition of a one-line if holds no newline "
+          "token - the parser's fence), C10_line_start_needs_newline (a run of tokens that do not end a line whose formatted text ends "
+          "in line feed + blanks holds a newline token) and C10_indent (token lists whose space / comment tokens do not end a line, "
+          "trivia_tidy: a code token i that begins a line of the output is preceded by exactly indentwidth x "
+          "token_depth ts i spaces); C10_output_form (luafmt's output is ref_fmt (gap_fmt w) ts of Spec/ReindentSpec.v - a function of "
+          "the significant tokens, the runs between them, their position flags and the reference depth), C10_ref_fmt_reindent and "
+          "C10_reindent_invariant (token lists with the same significant tokens and runs equal modulo line-edge blanks, both inside the "
+          "domain, are formatted to the same text; non-vacuity: two layouts of a nested program with a one-line if with else, comments, "
+          "blank-line runs, tabs); C10_formatted_fixed and C10_idempotent_tokens (a token list inside the domain that is spelled as the "
+          "reference formatting of some token list is written back byte for byte: formatting formatted code changes nothing, given "
+          "that the output re-lexes to such tokens); proved by re-running the walk induction with the counter and the token-stream depth state threaded "
+          "(Proofs/TokenDepthProofs.v, WriterCursorD.v, AstWriterDepth.v, FmtLineEnd.v). Regex sources, guards, replacement expressions, order, and the whole function text "
           "are regenerated from lua.py on every run and pinned. Tie: the extracted model equals the real method on ALL runs of length "
           "<= 5 (thorough 6) over {space,tab,\\n,\\r,-,/,a} x 4 positions x 3 (width,depth), on random long runs, and on every "
           "_get_code_for_spaces call made inside real luafmt runs on generated programs; the extracted holds_C10 (reference reader "
@@ -77,11 +101,14 @@ CLAIM = dict(
           "widths 0-8: outputs equal, fmt(fmt)=fmt, indentation = width x depth on every code line, no trailing white space, no "
           "double blank line, no blank line at the end."),
     note=("PARTIAL: indentation = width x syntactic depth is proved (C10_indent) with the depth computed on the INPUT tokens, outside "
-          "two exclusions (a one-line if with an else part anywhere in the program; a trailing table field separator - there the "
+          "one exclusion (a trailing table field separator - there the "
           "statement is false: `x={1 / ,}` is written with the comma at column 0, C10_indent_trailing_sep_refuted, same on the real "
-          "luafmt); that the depth read back from the OUTPUT text is the same, re-indentation invariance and idempotence of whole "
-          "programs are OBSERVED by the extracted monitor on real output, not proved: they need the lexer on re-indented / written "
-          "text. Three genuine "
+          "luafmt); re-indentation invariance is proved at TOKEN level (C10_reindent_invariant: same significant tokens, runs equal "
+          "modulo line-edge blanks; both layouts parsed to the end inside the writer domain); that the lexer maps texts related by the "
+          "byte-level same_modulo_line_edges to such token lists, that the depth read back from the OUTPUT text is the same, and "
+          "that luafmt's output re-lexes to a token list spelled as the formatting (the hypothesis formatted_as of the token-level "
+          "idempotence theorem C10_idempotent_tokens) are OBSERVED by the extracted monitor on real output (outputs equal, fmt(fmt)=fmt), "
+          "not proved: they need the lexer on re-indented / written text. Three genuine "
           "defects found by this check were fixed in picotool (fix: commits, findings/known_C10.json): white-space-only line / "
           "non-idempotence after an empty line inside a block; `//` comment lines kept their input indentation; a file without final "
           "newline got one only if blanks followed its last token. Trusted: Coq "
@@ -441,7 +468,11 @@ def _chunk_hypotheses(tokens, order):
     """the hypotheses of C10_indent_partial / C10_shape_partial observed on a real run: -> None | what fails
     separated: two non-empty white-space runs are never consumed without a code token between them;
     no_end: a run that reaches the end of the token list is the last one; codes_ok: a code token's text is not
-    empty, does not begin with a line feed, does not end in a blank or a line feed"""
+    empty, does not begin with a line feed, does not end in a blank or a line feed; trivia_tidy (C10_indent): a space or
+    comment token does not end a line - no CR / LF byte of its code is followed by blanks only up to the end of the code;
+    gaps_tidy (C10_output_form / C10_reindent_invariant): a run of space / comment tokens without a newline token holds no
+    CR / LF byte at all"""
+    import re
     from pico8.lua import lexer
     prev_end = None
     for k, (a, b) in enumerate(order):
@@ -450,8 +481,19 @@ def _chunk_hypotheses(tokens, order):
         if b == len(tokens) and k != len(order) - 1:
             return 'no_end: a run reaching the end is followed by another'
         prev_end = b
+    gap, gap_nl = b'', False
+    for t in list(tokens) + [None]:
+        if t is not None and isinstance(t, (lexer.TokSpace, lexer.TokNewline, lexer.TokComment)):
+            gap += bytes(t.code)
+            gap_nl = gap_nl or isinstance(t, lexer.TokNewline)
+        else:
+            if not gap_nl and (b'\n' in gap or b'\r' in gap):
+                return 'outside gaps_tidy'      # a layout outside the domain of C10_reindent_invariant, not a defect
+            gap, gap_nl = b'', False
     for t in tokens:
         if isinstance(t, (lexer.TokSpace, lexer.TokNewline, lexer.TokComment)):
+            if not isinstance(t, lexer.TokNewline) and re.search(br'[\r\n][ \t]*\Z', bytes(t.code)):
+                return 'trivia_tidy: token code %r' % bytes(t.code)[-20:]
             continue
         c = bytes(t.code)
         if not c or c[0] == 10 or c[-1] in (32, 10):
@@ -840,7 +882,10 @@ def run_cases(cases, ctx):
                 hyp = [p[1] for p in o['link'] if p[0] == 'hyp']
                 o['link'] = [p for p in o['link'] if p[0] != 'hyp']
                 for h in hyp:
-                    bump('chunk-hypotheses(separated,no_end,codes_ok):' + ('hold' if h is None else 'FAIL ' + h))
+                    if h == 'outside gaps_tidy':
+                        bump('chunk-hypotheses:run without newline token holds a line end (outside the domain of C10_reindent_invariant)')
+                        continue
+                    bump('chunk-hypotheses(separated,no_end,codes_ok,trivia_tidy,gaps_tidy):' + ('hold' if h is None else 'FAIL ' + h))
                     if h is not None and not any(d.get('summary', {}).get('kind') == 'hyp' for d in disagreements):
                         disagreements.append({'case': c, 'summary': {'kind': 'hyp'},
                                               'difference': 'a hypothesis of C10_indent_partial fails on a real luafmt run: ' + h})
